@@ -456,6 +456,16 @@ func cmdHistory(args []string) {
 	h := newHistory(objs)
 	thorough := tier == "thorough"
 	sum := ev.M{}
+	// objects on which a configurable lint reports a finding (probe run in another process): always part of configured rounds
+	matterIDs := map[string]bool{}
+	if p := os.Getenv("VERIF_USE_IDS"); p != "" {
+		var ids []string
+		if b, err := os.ReadFile(p); err == nil && json.Unmarshal(b, &ids) == nil {
+			for _, id := range ids {
+				matterIDs[id] = true
+			}
+		}
+	}
 
 	if phases["filter"] {
 		// ---- C07: filtered registries vs the full one, in both orders, every run on a freshly parsed copy
@@ -546,7 +556,7 @@ func cmdHistory(args []string) {
 				h.filter(0, "cfg-re", lint.FilterOptions{NameFilter: regexp.MustCompile("^[ewn]_")}),
 				h.filter(0, "cfg-exc", lint.FilterOptions{ExcludeSources: lint.SourceList{lint.RFC5891}})}
 			for oi := range objs {
-				if only == "" && oi%6 != int(seed)%6 && !strings.HasPrefix(objs[oi].ID, "forged:san-case") {
+				if only == "" && oi%6 != int(seed)%6 && !strings.HasPrefix(objs[oi].ID, "forged:san-case") && !matterIDs[objs[oi].ID] {
 					continue
 				}
 				if oi%2 == 0 {
